@@ -823,6 +823,52 @@ fn exhaustive(out: &mut Out, depth: usize, n: &mut u64) {
 	rec(&mut prefix, 1, depth, out, n);
 }
 
+/// Names that look special to somebody (reserved-looking prefixes, dots, slashes, one character, non-ASCII,
+/// the words the protocol itself uses, a very long one): the registry is a map from *any* name; one fixed
+/// script per name walks it through register / duplicate / alias / subscription pair / clone / failed and
+/// successful merge / remove, with the full sweep after every step.
+fn odd_names(out: &mut Out) {
+	let long = "n".repeat(300);
+	let names: Vec<&str> = vec![
+		"rpc.discover", "rpc.", "rpc.a.b", "rpc", "RPC.x", "rpc_x", "a.b", ".a", "A", "\u{e4}", "0", "_", "-", "$", "a/b", "/", "a-b", "subscribe", "unsubscribe",
+		"notif", "method", "params", "id", "jsonrpc", "null", "true", "[]", "{}", &long,
+	];
+	for (i, n) in names.iter().enumerate() {
+		let lines = vec![
+			format!("case odd{i} registry"),
+			"R.new mod".to_string(),
+			format!("R.reg 0 {n} 1"),
+			format!("R.call 0 {n}"),
+			format!("R.reg 0 {n} 2"),
+			format!("R.regasync 0 {n} 3"),
+			format!("R.alias 0 {n}x {n}"),
+			format!("R.call 0 {n}x"),
+			format!("R.alias 0 {n} {n}x"),
+			format!("R.regsub 0 {n}s {n}u 4"),
+			format!("R.regsub 0 {n}t {n} 5"),
+			format!("R.call 0 {n}s"),
+			format!("R.call 0 {n}u"),
+			"R.names 0".to_string(),
+			"R.clone 0".to_string(),
+			"R.new mod".to_string(),
+			format!("R.reg 2 {n} 6"),
+			format!("R.reg 2 {n}y 7"),
+			"R.merge 0 2".to_string(),
+			format!("R.remove 0 {n}"),
+			format!("R.call 0 {n}"),
+			format!("R.call 1 {n}"),
+			"R.merge 0 2".to_string(),
+			format!("R.call 0 {n}"),
+			format!("R.call 0 {n}y"),
+			format!("R.remove 0 {n}u"),
+			format!("R.call 0 {n}u"),
+			"R.names 0".to_string(),
+			"R.names 1".to_string(),
+		];
+		run_lines(&lines, out, true);
+	}
+}
+
 fn main() {
 	let a = args();
 	let mut out = Out::new();
@@ -832,6 +878,7 @@ fn main() {
 	} else {
 		let corpus = corpus_lines("C13");
 		run_lines(&corpus, &mut out, true);
+		odd_names(&mut out);
 		let thorough = a.tier == "thorough";
 		let n = a.cases.unwrap_or(if thorough { 50000 } else { 3000 });
 		let mut rng = Rng::new(a.seed);
